@@ -98,10 +98,18 @@ def busy_close_case(draw, tier="quick"):
     for i in range(draw(st.integers(1, 8))):
         ops.append({"op": "send", "ch": victim if draw(st.integers(0, 3)) else draw(st.integers(0, nchan - 1)), "side": draw(st.integers(0, 1)),
                     "kind": "bytes", "len": draw(st.sampled_from([1, 1200, 2400, 5000, 30000])), "fill": i, "dt": 0})
-    ops.append({"op": "close", "ch": victim, "side": draw(st.integers(0, 1)), "dt": draw(st.sampled_from([0, 0, 1, 11, 30]))})
-    ops.append({"op": "wait", "dt": draw(st.sampled_from([50, 500, 5000]))})
-    ops.append({"op": "create", "side": draw(st.integers(0, 1)), "ordered": draw(st.booleans()), "mr": None, "mlt": None, "label": "", "protocol": "", "dt": 0,
-                "reuse": victim})
+    if draw(st.booleans()):
+        ops.append({"op": "close", "ch": victim, "side": draw(st.integers(0, 1)), "dt": draw(st.sampled_from([0, 0, 1, 11, 30]))})
+        ops.append({"op": "wait", "dt": draw(st.sampled_from([50, 500, 5000]))})
+        ops.append({"op": "create", "side": draw(st.integers(0, 1)), "ordered": draw(st.booleans()), "mr": None, "mlt": None, "label": "", "protocol": "", "dt": 0,
+                    "reuse": victim})
+    else:
+        # the side that created the channel closes it and opens another one as soon as its own reset is answered (two to
+        # four network delays later): the automatic choice is the id just freed, while the peer may still be sending
+        creator = ops[victim]["side"]
+        ops.append({"op": "close", "ch": victim, "side": creator, "dt": draw(st.sampled_from([0, 0, 1, 11]))})
+        ops.append({"op": "create", "side": creator, "ordered": draw(st.booleans()), "mr": None, "mlt": None, "label": "", "protocol": "",
+                    "dt": draw(st.sampled_from([21, 26, 31, 41, 61]))})
     ops.append({"op": "await_open", "max_ms": 30000})
     for i in range(draw(st.integers(1, 3))):
         ops.append({"op": "send", "ch": nchan, "side": draw(st.integers(0, 1)), "kind": "bytes", "len": draw(st.sampled_from([1, 100, 2400])), "fill": 100 + i,
